@@ -18,6 +18,7 @@ import (
 	"github.com/vimeo/dials"
 	"github.com/vimeo/dials/ptrify"
 	"github.com/vimeo/dials/sources/static"
+	dyaml "github.com/vimeo/dials/decoders/yaml"
 	"github.com/vimeo/dials/sourcewrap"
 	"github.com/vimeo/dials/transform"
 	yaml "gopkg.in/yaml.v2"
@@ -35,6 +36,7 @@ type input struct {
 	Wrap  bool   `json:"wrap,omitempty"` // decoders wrapped with the set-slice mangler (as ez does)
 	Fmt   int    `json:"fmt,omitempty"`  // corrupt: which format
 	Mut   uint64 `json:"mut,omitempty"`  // corrupt: PRNG state of the corruption
+	Embed bool   `json:"embed,omitempty"` // the type may have embedded structs
 }
 
 var keyWords = []string{"name", "port", "addr", "level", "timeout", "retry", "max_conns", "tls", "user", "path", "mode",
@@ -47,13 +49,19 @@ var leafTypes = []reflect.Type{
 	reflect.TypeOf(time.Duration(0)), reflect.TypeOf(""),
 }
 
+var flatMode bool // genDoc writes embedded structs the flattened way (decoders/yaml FlattenAnonymous)
+
 var tomlLive = true // genDoc: the TOML decoder reads the value being generated (its key is the one TOML uses, at every level)
 
 var wrapMode bool // set per case: set-typed leaves only occur when the decoders are wrapped
 
 func genLeaf(r *coqfmt.Rng) reflect.Type {
 	tup, _ := rty.TextUTypes()
-	switch x := r.Intn(27); {
+	switch x := r.Intn(28); {
+	case x == 27:
+		// a slice of TextUnmarshaler structs: its element type is not to be rewritten.  (Not []TUp:
+		// go-toml cannot read an array into a slice of a custom TextUnmarshaler struct.)
+		return reflect.SliceOf(tTime)
 	case x == 24:
 		return tTime
 	case x == 25:
@@ -89,10 +97,18 @@ func genLeaf(r *coqfmt.Rng) reflect.Type {
 	}
 }
 
+var fieldCtr int // Go field names are distinct across the whole generated type (hoisting must not clash) ...
+var embedOK bool // embedded fields are generated
+
 // genType: every field carries a dials tag; some carry format tags as well.
 func genType(r *coqfmt.Rng, depth, maxDepth, width int) reflect.Type {
+	return genTypeIn(r, depth, maxDepth, width, map[string]bool{}, false)
+}
+
+// used: the keys taken in the enclosing mapping (an embedded struct shares its parent's);
+// inSlice: the struct is a slice element (not pointerified).
+func genTypeIn(r *coqfmt.Rng, depth, maxDepth, width int, used map[string]bool, inSlice bool) reflect.Type {
 	n := 1 + r.Intn(width)
-	used := map[string]bool{}
 	fields := make([]reflect.StructField, 0, n)
 	for i := 0; i < n; i++ {
 		var key string
@@ -114,9 +130,38 @@ func genType(r *coqfmt.Rng, depth, maxDepth, width int) reflect.Type {
 		case depth < maxDepth && x < 28:
 			t = reflect.PtrTo(genType(r, depth+1, maxDepth, width))
 		case depth < maxDepth && x < 36:
-			t = reflect.SliceOf(genType(r, maxDepth, maxDepth, 3))
+			t = reflect.SliceOf(genTypeIn(r, maxDepth, maxDepth, 3, map[string]bool{}, true))
 		default:
 			t = genLeaf(r)
+		}
+		embedded := false
+		if embedOK && x >= 36 && x < 64 && depth <= maxDepth {
+			// an embedded struct or *struct; its keys live in the parent's mapping when hoisted.
+			// (A plain embedded struct inside a slice element is read inline by go-toml when its own
+			// key is absent: third-party behaviour kept out of the generated class.)
+			et := genTypeIn(r, maxDepth, maxDepth, 3, used, inSlice)
+			if r.Chance(1, 6) {
+				// an embedded struct inside the embedded struct: hoisted one level only
+				// (its key and - it may be embedded in turn - its fields' keys share the mapping: yaml.v2
+				// panics on a struct type with one key twice)
+				inner := genTypeIn(r, maxDepth, maxDepth, 2, used, inSlice)
+				fs := []reflect.StructField{}
+				for j := 0; j < et.NumField(); j++ {
+					fs = append(fs, et.Field(j))
+				}
+				it := reflect.Type(reflect.PtrTo(inner))
+				ikey := fmt.Sprintf("in%d", fieldCtr)
+				used[ikey] = true
+				fs = append(fs, reflect.StructField{Name: fmt.Sprintf("E%d", fieldCtr), Type: it, Anonymous: true,
+					Tag: reflect.StructTag(fmt.Sprintf(`dials:"%s"`, ikey))})
+				fieldCtr++
+				et = reflect.StructOf(fs)
+			}
+			t = et
+			if inSlice || r.Chance(1, 2) {
+				t = reflect.PtrTo(et)
+			}
+			embedded = true
 		}
 		tag := fmt.Sprintf(`dials:"%s"`, key)
 		if r.Chance(1, 8) {
@@ -128,7 +173,20 @@ func genType(r *coqfmt.Rng, depth, maxDepth, width int) reflect.Type {
 				}
 			}
 		}
-		fields = append(fields, reflect.StructField{Name: fmt.Sprintf("F%d", i), Type: t, Tag: reflect.StructTag(tag)})
+		name := fmt.Sprintf("F%d", fieldCtr)
+		if embedded {
+			name = fmt.Sprintf("E%d", fieldCtr)
+		}
+		fieldCtr++
+		if embedOK && r.Chance(1, 60) {
+			name = "F0x" // ... except for a rare clash: hoisting it next to another F0x is a TranslateType error
+			for _, f := range fields {
+				if f.Name == name {
+					name = fmt.Sprintf("F%dy", fieldCtr)
+				}
+			}
+		}
+		fields = append(fields, reflect.StructField{Name: name, Type: t, Tag: reflect.StructTag(tag), Anonymous: embedded})
 	}
 	return reflect.StructOf(fields)
 }
@@ -337,8 +395,25 @@ func genDoc(r *coqfmt.Rng, t reflect.Type, bad *int) *doc {
 		}
 		var kvs []kv
 		p := 1 + r.Intn(4)
+		var fs []reflect.StructField
 		for i := 0; i < t.NumField(); i++ {
 			f := t.Field(i)
+			et := f.Type
+			if et.Kind() == reflect.Ptr {
+				et = et.Elem()
+			}
+			if flatMode && f.Anonymous && et.Kind() == reflect.Struct && r.Chance(7, 8) {
+				// written the flattened way: the embedded struct's fields in this mapping (one level)
+				for j := 0; j < et.NumField(); j++ {
+					g := et.Field(j)
+					g.Anonymous = false
+					fs = append(fs, g)
+				}
+				continue
+			}
+			fs = append(fs, f)
+		}
+		for _, f := range fs {
 			if !r.Chance(p, 4) {
 				continue
 			}
@@ -606,6 +681,11 @@ func genericParse(f int, text string) (*doc, error, bool) {
 	case 1:
 		var m map[string]interface{}
 		if err := yaml.Unmarshal([]byte(text), &m); err != nil {
+			if strings.Contains(err.Error(), "map merge requires") || strings.Contains(err.Error(), "value contains itself") {
+				// not a parse error: raised while a mapping / alias is being constructed, which the decode
+				// into a struct never does for a value under an unknown key
+				return nil, nil, true
+			}
 			return nil, err, false
 		}
 		if m == nil {
@@ -684,6 +764,9 @@ func run(raw json.RawMessage) driver.Result {
 	}
 	r := coqfmt.NewRng(in.State)
 	wrapMode = in.Wrap
+	fieldCtr = 0
+	embedOK = in.Embed
+	flatMode = in.K == "flat"
 	T := genType(r, 0, in.Depth, in.Width)
 	PT := ptrify.Pointerify(T, reflect.New(T).Elem())
 	bad := 0
@@ -697,6 +780,29 @@ func run(raw json.RawMessage) driver.Result {
 		d = dM()
 	}
 	switch in.K {
+	case "flat":
+		saved := decoders[1]
+		decoders[1] = &dyaml.Decoder{FlattenAnonymous: true}
+		v, err, p := decodeWith(in.Wrap, 1, render(1, d), PT)
+		decoders[1] = saved
+		tags := []string{"yaml-flatten-anonymous"}
+		if hasEmbedded(T) {
+			tags = append(tags, "embedded-struct")
+		}
+		if err != nil || p {
+			tags = append(tags, "flat-err")
+		} else {
+			tags = append(tags, "flat-ok")
+		}
+		if planted > 0 {
+			tags = append(tags, "planted-bad-value")
+		}
+		return driver.Result{
+			Coq:        fmt.Sprintf("Flat %s %s %s %s", coqfmt.Bool(in.Wrap), printer.FieldsTerm(T), d.term(), outcomeTerm(v, err, p)),
+			Kind:       "flat",
+			Nontrivial: hasEmbedded(T) && len(d.kvs) >= 2,
+			Tags:       tags,
+		}
 	case "agree":
 		terms := make([]string, 4)
 		nerr := 0
@@ -772,6 +878,20 @@ func run(raw json.RawMessage) driver.Result {
 	}
 }
 
+func hasEmbedded(t reflect.Type) bool {
+	switch t.Kind() {
+	case reflect.Ptr, reflect.Slice:
+		return hasEmbedded(t.Elem())
+	case reflect.Struct:
+		for i := 0; i < t.NumField(); i++ {
+			if t.Field(i).Anonymous || hasEmbedded(t.Field(i).Type) {
+				return t != tTime
+			}
+		}
+	}
+	return false
+}
+
 func hasKind(d *doc, k kind) bool {
 	if d.kind == k {
 		return true
@@ -820,12 +940,19 @@ func gen(r *coqfmt.Rng, n int, tier string) []json.RawMessage {
 		st := r.U64()
 		depth, width := r.Intn(3), 2+r.Intn(4)
 		wrap := r.Chance(1, 3)
-		b, _ := json.Marshal(input{K: "agree", State: st, Depth: depth, Width: width, Wrap: wrap})
+		embed := r.Chance(1, 3)
+		if embed && r.Chance(2, 3) {
+			// decoders/yaml with FlattenAnonymous on a type with embedded structs
+			b, _ := json.Marshal(input{K: "flat", State: st, Depth: depth, Width: width, Wrap: wrap, Embed: true})
+			out = append(out, b)
+			continue
+		}
+		b, _ := json.Marshal(input{K: "agree", State: st, Depth: depth, Width: width, Wrap: wrap, Embed: embed})
 		out = append(out, b)
 		// single-token corruptions of the same document, one per format
 		for f := 0; f < 4; f++ {
 			if r.Chance(1, 2) {
-				b, _ := json.Marshal(input{K: "corrupt", State: st, Depth: depth, Width: width, Wrap: wrap, Fmt: f, Mut: r.U64()})
+				b, _ := json.Marshal(input{K: "corrupt", State: st, Depth: depth, Width: width, Wrap: wrap, Fmt: f, Mut: r.U64(), Embed: embed})
 				out = append(out, b)
 			}
 		}
